@@ -55,6 +55,10 @@ def menu(c: reg.Country, comp: str, salt: int, tier: str, other_w: int = 0) -> l
     if other_w:
         comb = conforming(c, comp, w, salt) + "".join(DIG[(i + salt) % 10] for i in range(other_w))
         items += [comb, comb + "9", comb + "12"]  # combined width, and one / two beyond it
+    if w >= 3:
+        y = conforming(c, comp, w - 2, salt + 3)  # white-space inside a value that also needs padding
+        items.append(y[:1] + " " + y[1:])
+        items.append(" " + y + "\t")
     if w >= 2:
         x = conforming(c, comp, w, salt + 1)
         items.append(x[:1] + " " + x[1:])
